@@ -73,6 +73,11 @@ type Observation struct {
 	// not all equal, or an ORDER BY with ties among differing rows): WHICH rows pass is unspecified.
 	ArbitraryWindow bool
 
+	// WindowFeedsLaterClause: after such a cut in a WITH the surviving rows were filtered (WHERE), matched against
+	// (MATCH / UNWIND), grouped, made DISTINCT or cut again: not even the number of result rows is determined, it
+	// depends on WHICH rows passed.
+	WindowFeedsLaterClause bool
+
 	// CollectOrderOpen: some collect() gathered at least two different values into one list: the order of the list
 	// elements is the unspecified order of the row stream.
 	CollectOrderOpen bool
